@@ -173,6 +173,54 @@ fn structured_faults(doc: &Value, rng: &mut Rng, thorough: bool) -> Vec<FileFaul
             }
         }
     }
+    // per topic: the rare message kinds (commitments, FRI layer commitments, interaction
+    // elements...) are a handful of lines among thousands of decommitment lines; a uniformly drawn
+    // line almost never is one of them. For every topic with at most 16 lines: exchange its first
+    // two lines, repeat its last line, drop one, and add a further line whose label continues the
+    // numbering (a surplus message).
+    {
+        let mut topics: std::collections::BTreeMap<String, Vec<usize>> = Default::default();
+        for &i in &pv_lines {
+            let l = doc["annotations"][i].as_str().unwrap_or("");
+            let body = l.split_once("]: ").map(|x| x.1).unwrap_or(l);
+            let head = body.rsplit_once('(').map(|x| x.0).unwrap_or(body);
+            let class: String = head.chars().map(|c| if c.is_ascii_digit() { '#' } else { c }).collect();
+            topics.entry(class).or_default().push(i);
+        }
+        for (_, lines) in topics.iter().filter(|(_, v)| v.len() <= 16) {
+            let last = *lines.last().unwrap();
+            if lines.len() >= 2 {
+                let mut d = doc.clone();
+                ann_mut(&mut d).swap(lines[0], lines[1]);
+                push("topic-swap", d, json!({"op": "line-swap", "i": lines[0], "j": lines[1]}));
+            }
+            let l = doc["annotations"][last].clone();
+            let mut d = doc.clone();
+            ann_mut(&mut d).insert(last + 1, l.clone());
+            push("topic-duplicate", d, json!({"op": "line-insert", "i": last + 1, "text": l}));
+            let k = lines[rng.usize_below(lines.len())];
+            let mut d = doc.clone();
+            ann_mut(&mut d).remove(k);
+            push("topic-delete", d, json!({"op": "line-delete", "i": k}));
+            // a surplus line labelled with the next number (last number of the topic text + 1)
+            let text = l.as_str().unwrap_or("").to_string();
+            if let (Some((pre, payload)), true) = (text.rsplit_once('('), lines.len() >= 2) {
+                let digits_end = pre.rfind(|c: char| c.is_ascii_digit());
+                if let Some(e) = digits_end {
+                    let b = pre[..=e].rfind(|c: char| !c.is_ascii_digit()).map(|x| x + 1).unwrap_or(0);
+                    let after_bracket = pre.find("]: ").map(|x| x + 3).unwrap_or(0);
+                    if b >= after_bracket {
+                        if let Ok(n) = pre[b..=e].parse::<u64>() {
+                            let nl = format!("{}{}{}({}", &pre[..b], n + 1, &pre[e + 1..], payload);
+                            let mut d = doc.clone();
+                            ann_mut(&mut d).insert(last + 1, json!(nl.clone()));
+                            push("topic-surplus-next-label", d, json!({"op": "line-insert", "i": last + 1, "text": nl}));
+                        }
+                    }
+                }
+            }
+        }
+    }
     // bad hex inside the two vector messages (OODS values, last layer)
     for (k, topic) in [("bad-hex-in-vector", "OODS values: : Field Elements("), ("bad-hex-in-vector", "Last Layer: Coefficients: Field Elements(")] {
         if let Some(i) = (0..n_ann).find(|i| doc["annotations"][*i].as_str().map(|s| s.contains(topic)).unwrap_or(false)) {
@@ -525,6 +573,12 @@ fn rebuild(rep: &Value) -> Result<String, String> {
             let i = spec["i"].as_u64().ok_or("i")? as usize;
             let l = doc["annotations"][i].clone();
             ann_mut(&mut doc).insert(i, l);
+            doc
+        }
+        Some("line-insert") => {
+            let i = spec["i"].as_u64().ok_or("i")? as usize;
+            let t = spec["text"].clone();
+            ann_mut(&mut doc).insert(i, t);
             doc
         }
         Some("line-swap") => {
